@@ -140,7 +140,7 @@ func exploreSched(c *Ctx, sc *Scenario, split bool) {
 			res.Note("a thread re-acquired an RW lock it already held in read mode (%d times; sites: %s): under sync.RWMutex's writer preference this can deadlock, the scheduler models no writer preference", vsched.RecursiveReads, strings.Join(sites, "; "))
 		}
 	}()
-	if b, err := os.ReadFile("/verif/.build/ov/warnings.txt"); err == nil && len(b) > 0 {
+	if b, err := os.ReadFile(buildDir() + "/ov/warnings.txt"); err == nil && len(b) > 0 {
 		for _, w := range strings.Split(string(b), "\n") {
 			res.Note("not under the scheduler's control: %s", w)
 		}
@@ -341,4 +341,11 @@ func compress(ch []int) string {
 func asFloat(v any) float64 {
 	f, _ := v.(float64)
 	return f
+}
+
+func buildDir() string {
+	if d := os.Getenv("VERIF_BUILD"); d != "" {
+		return d
+	}
+	return "/verif/.build"
 }
